@@ -400,11 +400,9 @@ def m_jaro_winkler(I, st, inst, args):
     from .lazy import constrain_once
     a = str_of(I, st, args[0])
     b = str_of(I, st, args[1])
-    f = z3.Function("jaro_winkler", z3.StringSort(), z3.StringSort(), z3.RealSort())
-    r = f(tosym(a), tosym(b))
     nm = "jw(%s,%s)" % (tosym(a).sexpr(), tosym(b).sexpr())
-    v = z3.FP(nm, z3.Float64())
-    constrain_once(st, nm, z3.And(z3.Not(z3.fpIsNaN(v)), z3.fpGEQ(v, z3.FPVal(0.0, z3.Float64())), z3.fpLEQ(v, z3.FPVal(1.0, z3.Float64()))))
+    v = z3.Real(nm)     # a finite, non-NaN f64 in [0, 1]: abstracted as a real (the code only compares scores)
+    constrain_once(st, nm, z3.And(v >= 0, v <= 1))
     return v
 
 
